@@ -347,6 +347,13 @@ def rule_noninterf(ctx):
     yield ob(R, g, "melody.freq_to_voicing:magnitude", good, "returned frequencies are |frequencies|")
     sign = any(x.op == "cmp" and x.a[0] == "<" and tm.is_const(x.a[1], 0) and x.a[2].op == "param" and x.a[2].a[0] == "frequencies" for x in tm.walk(vc))
     yield ob(R, g, "melody.freq_to_voicing:sign", sign, "default voicing is (frequencies > 0)")
+    # with an explicit voicing array only frames whose frequency is exactly 0 are forced unvoiced ("voicing inferred by
+    # negative frequency values is ignored")
+    zs = [m for m in sg.by_kind("mutate") if m.how == "setitem" and m.key is not None and "frequencies" in tm.params_of(m.key)]
+    if zs:
+        k = zs[0].key
+        exact = k.op == "cmp" and k.a[0] == "==" and any(tm.is_const(z, 0) for z in k.a[1:]) and any(z.op == "param" and z.a[0] == "frequencies" for z in k.a[1:]) and tm.is_const(zs[0].val, 0)
+        yield ob(R, g, "melody.freq_to_voicing:explicit-voicing", exact and len(zs) == 1, "a given voicing is zeroed exactly where frequencies == 0" if exact and len(zs) == 1 else "a given voicing is zeroed where %s: frames with a negative frequency lose the voicing the caller supplied, although the sign is documented to be ignored then" % tm.show(k, 3), node=zs[0].node)
     h = ctx.program.func("melody.hz2cents", R)
     sh = ctx.S.get(h.qual)
     absd = any(x.op == "call" and call_name(x) == "np.abs" for m in sh.by_kind("mutate") for x in tm.walk(m.val))
